@@ -575,7 +575,7 @@ class Interp:
                             else:
                                 items.append(xv)
                         v = ("tuple",) + tuple(items) if items is not None and not isinstance(e, ast.Set) else TOP
-                    elif (isinstance(e, ast.Tuple) and e.elts) or (isinstance(e, ast.List) and getattr(d, "exact_lists", False)) \
+                    elif (isinstance(e, ast.Tuple) and (e.elts or getattr(d, "exact_lists", False))) or (isinstance(e, ast.List) and getattr(d, "exact_lists", False)) \
                             or (isinstance(e, ast.Set) and getattr(d, "exact_lists", False) and all(isinstance(x, ast.Constant) for x in e.elts)):
                         # (a set of constants is iterated in source order: one of its possible orders)
                         v = ("tuple",) + tuple(r.value)
